@@ -131,6 +131,16 @@ def run(ctx, budget=None):
             yield "param-cycle+decorator-arg", dict(fx, parameters=cyc, services={"s": {"constructor": "fx.NewA", "tags": ["t"]}},
                                                     decorators=[{"tag": "t", "decorator": "fx.Dec1", "arguments": [ref]}])
             yield "param-cycle+missing", dict(fx, parameters=dict(cyc, z="%nope%%a%"), services={"s": {"constructor": "fx.NewA", "arguments": ["%z%", "@nope"]}})
+        # every validation rule runs on the same output: an explicit scope together with references that lead nowhere or round in circles
+        for sc in ("shared", "contextual", "non_shared"):
+            yield "scope+dangling", dict(fx, services={"top": {"constructor": "fx.NewA", "scope": sc, "arguments": ["@mid", "@nosuch"]},
+                                                      "mid": {"constructor": "fx.NewA", "arguments": ["@nosuch2", "!tagged nobody", "%nope%"], "fields": {"F1": "@ghost"}, "calls": [["Call1", ["@ghost2"]]]},
+                                                      "ctx": {"constructor": "fx.NewA", "scope": "contextual", "tags": ["t"]}},
+                                       decorators=[{"tag": "t", "decorator": "fx.Dec1", "arguments": ["@nosuch3", "@top"]}, {"tag": "nobody", "decorator": "fx.Dec1", "arguments": ["@top"]}])
+            yield "scope+cycle", dict(fx, services={"top": {"constructor": "fx.NewA", "scope": sc, "arguments": ["@a"]}, "a": {"constructor": "fx.NewA", "arguments": ["@b"]},
+                                                    "b": {"constructor": "fx.NewA", "arguments": ["@a", "@top", "@missing"], "scope": "contextual"}})
+            yield "scope+todo", dict(fx, services={"top": {"constructor": "fx.NewA", "scope": sc, "arguments": ["@later", "@later2"]}, "later": {"todo": True, "scope": "contextual", "arguments": ["@nosuch"]},
+                                                   "later2": {"todo": True}})
         yield "service-cycle+tag+decorator", dict(fx, services={"a": {"constructor": "fx.NewA", "arguments": ["!tagged t"], "tags": ["u"]}, "b": {"constructor": "fx.NewA", "tags": ["t"], "arguments": ["@c"]},
                                                                  "c": {"constructor": "fx.NewA", "arguments": ["@a"]}}, decorators=[{"tag": "u", "decorator": "fx.Dec1", "arguments": ["@b"]}])
         for top_scope, bottom_scope in (("shared", None), ("shared", "contextual"), (None, "contextual"), ("contextual", None), (None, None)):
